@@ -61,6 +61,10 @@ def run(ctx, rep):
         for case in range(N):
             tok = copy.deepcopy(ctx.rng.choice(tokens)) if ctx.rng.random() < 0.4 else gen_token(ctx.rng)
             names = ['svc:' + n for n in ctx.rng.sample(['get', 'list', 'create', 'delete', 'update'], ctx.rng.randint(1, 4))]
+            if ctx.rng.random() < 0.4:
+                # services whose names extend one another with a character that sorts before ':' (digits, '-', '.', '/')
+                names += ctx.rng.sample(['svc2:get', 'svc-legacy:list', 'svc.v2:get', 'svc/x:delete', 'sv:update', 'svc:get:all',
+                                         'Svc:get', 'svc :odd'.replace(' ', '_')], ctx.rng.randint(1, 3))
             rules = {}
             for n in names:
                 e = gen.gen_e0(ctx.rng, ctx.rng.choice([0, 1, 2]), lambda r: r.choice(LEAVES))
